@@ -305,10 +305,12 @@ def to_csr_spec(rng, w, dtype, vecs, noncanonical=True, dups=False):
             zs = [c for c in range(w) if v[c] == 0]
             rng.shuffle(zs)
             ent += [(c, Fraction(0)) for c in zs[:rng.choice([0, 0, 1, 2])]]          # explicit zeros
-            if dups and ent and dtype != 'bool':
+            if dups and ent:
                 c, x = ent[rng.randrange(len(ent))]
                 if x > 1:
                     ent = [e for e in ent if e[0] != c] + [(c, Fraction(1)), (c, x - 1)]   # duplicate column index
+                else:
+                    ent = [e for e in ent if e[0] != c] + [(c, Fraction(0)), (c, x)]       # ... adding up to 0/1
             if rng.random() < 0.7:
                 rng.shuffle(ent)
             else:
@@ -331,7 +333,7 @@ def rand_arr_pair(rng, allow):
     if yv is not None and rng.random() < 0.4:
         yv[0] = list(rng.choice(xv))
     form = rng.choice(['dense', 'dense', 'csr', 'csr', 'csr', 'mixed'])
-    dups = allow.get('csr_duplicates', True) and rng.random() < 0.15
+    dups = rng.random() < 0.2
 
     def mk(vecs, sparse):
         if sparse:
